@@ -134,6 +134,14 @@ def bounded_sums(which):
         data[nanmask] = rng.choice([np.nan, np.inf, -np.inf], size=int(nanmask.sum()), p=[0.6, 0.2, 0.2])
         if rng.random() < 0.3:
             data[0, :] = np.nan
+        # the same samples in every memory layout: C order, Fortran order, a transposed view
+        layout = int(rng.integers(0, 3))
+        if layout == 1:
+            data = np.asfortranarray(data)
+        elif layout == 2:
+            data = np.ascontiguousarray(data.T).T
+        if rng.random() < 0.3:
+            modes = np.asfortranarray(modes)
         got = get(P + 'lstsq')(modes, data)
         check('recovers-coefficients', bool(np.allclose(got, c, rtol=1e-7, atol=1e-8)))
     else:
